@@ -5,6 +5,7 @@ import GoBk.Gen.CurveIR
 import GoBk.Gen.Table
 import GoBk.Model.IR
 import GoBk.Model.IRWrap
+import GoBk.Spec.Secp
 /-
   Driver ops on the REGENERATED code: `field.*` (word-level field operations of Gen/Field.lean),
   `jac.*` (the point-arithmetic IR of Gen/CurveIR.lean run by `GoBk.IR`) and `table.get`
@@ -79,6 +80,52 @@ def jacFn : String → Option (Nat × Nat)
 
 def fvNat (f : FV) : Nat := beNat (bytes f).toList
 
+/-- integer value Σ nᵢ·2^(26i) of a word vector -/
+def fvVal (f : FV) : Nat := (fvWords f).foldr (fun w acc => w.toNat + acc * 67108864) 0
+
+/-- the affine point a Jacobian triple stands for (z ≡ 0 or x ≡ y ≡ 0: infinity), by the reference arithmetic -/
+def jacAffine (x y z : FV) : GoBk.Spec.Pt :=
+  let p := GoBk.Spec.P
+  let xv := fvVal x % p; let yv := fvVal y % p; let zv := fvVal z % p
+  if zv == 0 || (xv == 0 && yv == 0) then (0, 0) else
+  let zi := GoBk.Spec.invMod zv p
+  let zi2 := zi * zi % p
+  (xv * zi2 % p, yv * zi2 % p * zi % p)
+
+/-- PROPERTY-LEVEL oracle for the Jacobian routines (C01, internal quantifier): when the inputs stand for
+valid curve points, the output triple must stand for the group-law sum / double computed by the affine
+reference `GoBk.Spec`.  `true` when there is nothing to check (invalid inputs). -/
+def jacSpecOk (name : String) (args out : List FV) : Bool :=
+  let g := fun (l : List FV) i => l.getD i zero
+  let one := setInt 1
+  -- an input is a PROPER representation (the ones the property quantifies over and the callers produce):
+  -- infinity as a literally zero z or literally zero (x,y); otherwise z invertible and the point on the curve.
+  -- Denormalised zeros (words of P standing for 0) are not representations of anything: nothing to check.
+  let rep := fun (x y z : FV) =>
+    if isZero z || (isZero x && isZero y) then some ((0, 0) : GoBk.Spec.Pt)
+    else if fvVal z % GoBk.Spec.P == 0 then none
+    else
+      let a := jacAffine x y z
+      if GoBk.Spec.isInf a || !GoBk.Spec.valid a then none else some a
+  let chk := fun (a b : Option GoBk.Spec.Pt) (binary : Bool) (ox oy oz : FV) =>
+    match a, b with
+    | some a, some b => jacAffine ox oy oz == (if binary then GoBk.Spec.padd a b else GoBk.Spec.pdouble a)
+    | _, _ => true
+  match name with
+  | "add" | "addv4" =>
+    chk (rep (g args 0) (g args 1) (g args 2)) (rep (g args 3) (g args 4) (g args 5)) true (g out 6) (g out 7) (g out 8)
+  | "addv1" | "addv3" =>
+    chk (rep (g args 0) (g args 1) (g args 2)) (rep (g args 3) (g args 4) one) true (g out 5) (g out 6) (g out 7)
+  | "addv2" =>
+    chk (rep (g args 0) (g args 1) (g args 2)) (rep (g args 3) (g args 4) (g args 2)) true (g out 5) (g out 6) (g out 7)
+  | "double" | "dblv2" =>
+    let a := rep (g args 0) (g args 1) (g args 2)
+    chk a a false (g out 3) (g out 4) (g out 5)
+  | "dblv1" =>
+    let a := rep (g args 0) (g args 1) one
+    chk a a false (g out 2) (g out 3) (g out 4)
+  | _ => true
+
 def runJac (name : String) (aliasS : String) (ps : List String) : Option String := do
   let (idx, n) ← jacFn name
   if ps.length != n then none
@@ -89,7 +136,10 @@ def runJac (name : String) (aliasS : String) (ps : List String) : Option String 
   if name == "toaffine" then
     -- hand-modelled tail of fieldJacobianToBigAffine: x3.SetBytes(x.Bytes()[:]), same for y
     pure ("ok " ++ s ++ " " ++ nhex (fvNat (out.getD 0 zero)) ++ " " ++ nhex (fvNat (out.getD 1 zero)))
-  else pure ("ok " ++ s)
+  else
+    -- inputs as the callee sees them: an aliased parameter starts with the value of the parameter it aliases
+    let seen := (List.range n).map fun i => args.getD (alias.getD i i) zero
+    pure ("ok " ++ s ++ " S=" ++ b2s (jacSpecOk name seen out))
 
 def runFieldOp (op : String) (a : List String) : Option String :=
   match op, a with
